@@ -27,6 +27,12 @@ def run_shard(ctx):
     for case in ctx.mine(gen.huge_cases(L)):
         for data, how in ((case.data, "huge"), (case.data[:-1], "huge-cut"), (case.data + b"\x00", "huge-suffix")):
             ctx.run_plain(lambda data=data, how=how, case=case: judge_c06(ctx, L, case.type, None, False, data, how), f"huge:{case.type}")
+    # one long well-formed stream per shard pair, decoded outside hypothesis (which raises the recursion limit in a test)
+    if ctx.shard % 4 == 0:
+        collected = []
+        ctx.run_given(gen.long_streams(L), collected.append, 1, name="long-stream")
+        for c in collected:
+            ctx.run_plain(lambda c=c: judge_c06(ctx, L, c.type, None, False, c.data, "long-stream"), "long-stream")
     # every type at least once on low-entropy bytes
     from hypothesis import strategies as st
 
